@@ -82,7 +82,7 @@ func (SlidingWindow) New(cfg Config) fiber.Handler {
 		rate := int(float64(e.prevHits)*weight) + e.currHits
 
 		// Calculate how many hits can be made based on the current rate
-		remaining := cfg.Max - rate
+		remaining := maxRequests - rate
 
 		// Update storage. Garbage collect when the next window ends.
 		// |--------------------------|--------------------------|
